@@ -17,7 +17,7 @@ import sys
 import threading
 import time as _real_time
 
-sys.path.insert(0, "/repo/src")
+sys.path.insert(0, __import__("os").environ.get("VF_REPO", "/repo") + "/src")
 sys.path.insert(0, os.path.dirname(os.path.dirname(os.path.abspath(__file__))))
 
 from vf import vio  # noqa: E402
